@@ -639,3 +639,34 @@ def _c16(work, v, tier, seed):
 
 
 PIPELINES["C16"] = _c16
+
+
+def _c11(work, v, tier, seed):
+    import cli
+    cfg = write_cfg(work, "Gen_Runs_%s.cfg" % tier, spec=None, invariants=["Emit"], constants={"NCmds": len(cli.CMDS), "Scope": "quick" if tier == "quick" else "full"})
+    cases, n, r = vf.tlc_gen(work, "Gen_Runs", cfg, workers=4)
+    if n == 0:
+        raise vf.ToolingError("Gen_Runs produced no descriptor")
+    v.add_mc(r, "gen:Runs")
+    desc = [json.loads(l) for l in open(cases)]
+    desc.sort(key=lambda d: (d["rep"], d["threads"], d["cmd"], d["seed"]))
+    trace, nev = cli.run_history(work, v, desc, tier)
+    res = vf.tlc_trace(work, "Trace_Runs", trace, cfg=write_cfg(work, "Trace_Runs.cfg", invariants=["Done"]))
+    evs = vf.read_events(trace)
+    for e in evs:
+        v.count_case(vf.digest([e["key"], e.get("threads"), e.get("rep"), e.get("procs")]))
+        v.sample({"command": e["what"], "threads": e.get("threads"), "output_digest": e["out"]})
+    v.add_trace(res, 1, "trace:Trace_Runs")
+    for b in res.get("bad", []):
+        e = evs[b["i"] - 1]
+        first = evs[b["first"] - 1] if b.get("first") else None
+        desc = {"op": e["key"].split("/")[0], "failing": sorted(b["failing"]), "kind": e["kind"], "command": e["what"],
+                "first_command": first["what"] if first else None, "out": e["out"], "first_out": first["out"] if first else None}
+        if os.environ.get("VERIF_DEBUG"):
+            vf.log("bad: %s" % json.dumps(desc))
+        v.finding(desc, {"family": "cli", "commands": [first["what"] if first else None, e["what"]]})
+    v.notes.append("%d keys, %d runs" % (res.get("keys", 0), nev))
+    v.assumptions += ["TLC and the CommunityModules evaluate TLA+ correctly", "byte equality is observed through SHA-1 digests"]
+
+
+PIPELINES["C11"] = _c11
